@@ -13,16 +13,20 @@ Norm(n, d) == LET s == IF d < 0 THEN -1 ELSE 1
 R(n) == <<n, 1>>
 RZero == <<0, 1>>
 ROne == <<1, 1>>
-RAdd(a, b) == Norm(a[1] * b[2] + b[1] * a[2], a[2] * b[2])
+\* reduce before multiplying: TLC integers are 32 bit
+RAdd(a, b) == LET g == GCD(a[2], b[2]) IN Norm(a[1] * (b[2] \div g) + b[1] * (a[2] \div g), (a[2] \div g) * b[2])
 RNeg(a) == <<-a[1], a[2]>>
 RSub(a, b) == RAdd(a, RNeg(b))
-RMul(a, b) == Norm(a[1] * b[1], a[2] * b[2])
+RMul(a, b) == LET g1 == GCD(Abs(a[1]), b[2])  g2 == GCD(Abs(b[1]), a[2])
+              IN IF a[1] = 0 \/ b[1] = 0 THEN <<0, 1>>
+                 ELSE Norm((a[1] \div g1) * (b[1] \div g2), (a[2] \div g2) * (b[2] \div g1))
 RInv(a) == Norm(a[2], a[1])
 RDiv(a, b) == RMul(a, RInv(b))
-RLt(a, b) == a[1] * b[2] < b[1] * a[2]
-RLe(a, b) == a[1] * b[2] <= b[1] * a[2]
+
 RIsZero(a) == a[1] = 0
 RSign(a) == IF a[1] > 0 THEN 1 ELSE IF a[1] < 0 THEN -1 ELSE 0
+RLt(a, b) == RSign(RSub(a, b)) < 0
+RLe(a, b) == RSign(RSub(a, b)) <= 0
 RECURSIVE RPow(_, _)
 RPow(a, k) == IF k = 0 THEN ROne ELSE IF k < 0 THEN RPow(RInv(a), -k) ELSE RMul(a, RPow(a, k - 1))
 =============================================================================
